@@ -112,18 +112,23 @@ def o2Of? (s : Option FState) : Option O2State := s.bind o2Of
     * `refused`     the device stays where it is and says so (ok = false)
     * `errorState`  the device goes to ERROR and says so (trigger DEVICE_ERROR)
     * `reqLost`     transport error, the request never reached the device
-    * `replyLost`   transport error after the device performed the event (if its graph allows it) -/
+    * `replyLost`   transport error after the device performed the event (if its graph allows it)
+    * `errorNoState` the device falls into ERROR and its reply ARRIVES but carries no state: ok = false,
+                    trigger zero, state `""` (every field but the event echo has its zero value — on the JSON
+                    transport, whose codec omits zero fields, the document holds the event only) -/
 inductive Outcome where
-  | done | refused | errorState | reqLost | replyLost
+  | done | refused | errorState | reqLost | replyLost | errorNoState
   deriving DecidableEq, Repr, Inhabited
 
-def Outcome.all : List Outcome := [.done, .refused, .errorState, .reqLost, .replyLost]
+def Outcome.all : List Outcome := [.done, .refused, .errorState, .reqLost, .replyLost, .errorNoState]
 def Outcome.name : Outcome → String
   | .done => "done" | .refused => "refused" | .errorState => "errorState" | .reqLost => "reqLost" | .replyLost => "replyLost"
+  | .errorNoState => "errorNoState"
 def Outcome.parse? (s : String) : Option Outcome := Outcome.all.find? (·.name == s)
-/-- A transport error: `DoTransition` returns `("", err)`. -/
+/-- The executor learns no device state from this request: a transport error (`DoTransition` returns
+    `("", "occplugin returned …")`) or a reply without a state (`("", "transition unsuccessful: …")`). -/
 def Outcome.lost : Outcome → Bool
-  | .reqLost | .replyLost => true
+  | .reqLost | .replyLost | .errorNoState => true
   | _ => false
 
 /-- The `err` that `client.doTransition` returns, by kind. -/
@@ -178,6 +183,70 @@ def Dev.step {σ ε : Type} [DecidableEq σ] (D : Dev σ ε) (strict : Bool) (de
   | .errorState => (D.error, ⟨some D.error, .rejected⟩)
   | .reqLost => (dev, ⟨none, .transport⟩)
   | .replyLost => ((D.next dev a.evt).getD dev, ⟨none, .transport⟩)
+  | .errorNoState => (D.error, ⟨none, .rejected⟩)
+
+/-! ## the control transport (protobuf | JSON) between the device and `doTransition`
+
+`pb.TransitionReply` has four fields. The protobuf client (`pb.NewOccClient`) and the JSON client
+(`nopb.NewOccClient`, codec `encoding/json` over the generated struct whose tags say `omitempty`) both hand
+`doTransition` a reply object allocated for THIS call. A JSON document leaves out every field that has its zero
+value and `encoding/json` leaves a field that is not in the document as it finds it — so what `doTransition`
+sees is `jsonDecodeInto base (jsonDoc m)` with `base` = the object the client decodes into. -/
+
+/-- `pb.TransitionReply`: `state = none` is `""`, `trig = 0` is `EXECUTOR`, `evt = none` is `""`. -/
+structure Msg (σ ε : Type) where
+  state : Option σ
+  ok : Bool
+  trig : Nat
+  evt : Option ε
+  deriving DecidableEq, Repr
+
+/-- `new(pb.TransitionReply)`. -/
+def Msg.zero {σ ε : Type} : Msg σ ε := ⟨none, false, 0, none⟩
+
+/-- The JSON document of a reply: a field is present iff it is not its type's zero value (`omitempty`). -/
+structure JsonDoc (σ ε : Type) where
+  state : Option σ
+  ok : Option Bool
+  trig : Option Nat
+  evt : Option ε
+  deriving DecidableEq, Repr
+
+def jsonDoc {σ ε : Type} (m : Msg σ ε) : JsonDoc σ ε :=
+  ⟨m.state, if m.ok then some true else none, if m.trig = 0 then none else some m.trig, m.evt⟩
+
+/-- `json.Unmarshal(doc, base)`: fields of the document are set, all others stay what they were. -/
+def jsonDecodeInto {σ ε : Type} (base : Msg σ ε) (d : JsonDoc σ ε) : Msg σ ε :=
+  ⟨(d.state.map some).getD base.state, d.ok.getD base.ok, d.trig.getD base.trig, (d.evt.map some).getD base.evt⟩
+
+/-- The two transports of executorcmd.NewClient. -/
+inductive Transport where
+  | pb | json
+  deriving DecidableEq, Repr
+
+/-- What `doTransition` gets to see of the device's message `m`: both clients decode into a fresh object. -/
+def Transport.deliver {σ ε : Type} : Transport → Msg σ ε → Msg σ ε
+  | .pb, m => m
+  | .json, m => jsonDecodeInto Msg.zero (jsonDoc m)
+
+/-- client.go doTransition on a reply that arrived: the state passed on is the reply's, the error by `accept`. -/
+def replyOf {σ ε : Type} [DecidableEq σ] [DecidableEq ε] (a : Ask σ ε) (m : Msg σ ε) : Reply σ :=
+  ⟨m.state, accept m.ok (m.trig = 0) (decide (m.evt = some a.evt)) (decide (m.state = some a.dst))⟩
+
+/-- The message a device that is asked `a` in state `dev` sends when the request's outcome is `o`
+    (`none`: no reply — transport error). Triggers: 0 EXECUTOR, 1 DEVICE_INTENTIONAL, 2 DEVICE_ERROR. -/
+def Dev.msg {σ ε : Type} [DecidableEq σ] (D : Dev σ ε) (strict : Bool) (dev : σ) (a : Ask σ ε) (o : Outcome) :
+    Option (Msg σ ε) :=
+  if strict && decide (a.src ≠ dev) then none else
+  match o with
+  | .done =>
+    match D.next dev a.evt with
+    | some d' => some ⟨some d', true, 0, some a.evt⟩
+    | none => some ⟨some dev, false, 1, some a.evt⟩
+  | .refused => some ⟨some dev, false, 1, some a.evt⟩
+  | .errorState => some ⟨some D.error, false, 2, some a.evt⟩
+  | .reqLost | .replyLost => none
+  | .errorNoState => some ⟨none, false, 0, some a.evt⟩
 
 /-- The FairMQ device graph (NOT in the repository — trusted, mirrored in the Go scripted device):
     the FairMQ state machine with the automatic intermediate states (BINDING, CONNECTING,
